@@ -310,13 +310,14 @@ def mutate_source(b, op):
     from .values import Item
 
     _, i, how, uid = op
-    lst = b.srcs[i].obj
+    lst = b.srcs[i].obj if i != "outer" else (b.outer.obj if b.outer is not None else None)
     if not isinstance(lst, list):
         return
+    # (what is appended to the OUTER list of chain.from_iterable is one more - small - iterable)
     if how == "append":
-        lst.append(Item(1, uid))
+        lst.append(Item(1, uid) if i != "outer" else [Item(1, uid)])
     elif how == "insert0":
-        lst.insert(0, Item(2, uid))
+        lst.insert(0, Item(2, uid) if i != "outer" else [Item(2, uid)])
     elif how == "pop" and lst:
         lst.pop()
     elif how == "clear":
